@@ -1,4 +1,26 @@
 import CoolerModel.Model.Strings
+/-!
+# C19 — region and URI strings parse to exactly what they denote, or are refused
+
+Property theorems only; every statement is about the definitions in `Model/Strings.lean`, which the
+correspondence harness (`harness/c19.py`) executes against `cooler.util.parse_humanized`,
+`parse_region_string`, `parse_region`, `parse_cooler_uri`.
+
+Layers: L1 = `parseHumanized`, `tokenize`/`nextToken`, `parseRegionString`, `checkRegion`/`parseRegion`,
+`parseCoolerUri` (mirror the code); L0 = `denote`, `numeralValue`, `strictRegion` (what a well-formed
+string denotes) and `refusedClass` (the malformed classes the property lists).
+
+Main results (all for unbounded strings and numbers):
+* `digits_roundtrip`                      `int(str(n)) = n` for the model's digit functions
+* `humanized_plain`, `humanized_exact`,
+  `humanized_exact_nodot`, `humanized_floor`   numeral × unit is scaled exactly (commas ignored)
+* `numeral_parses`, `region_denotes`, `region_denotes_open`, `parse_name_only`,
+  `strict_parses`                         L1 = L0 on every well-formed region string
+* `parse_format_id`, `parse_format_open`  format → parse is the identity
+* `region_refuses`, `refusedClass_sound`  every listed malformed class is refused
+* `parseRegion_refuses`, `parseRegion_sound`, `parseRegion_accepts`   defaults and bounds
+* `uri_slash`, `uri_no_sep`, `uri_two_sep`, `uri_two_sep_any`         URI spellings
+-/
 namespace Cooler.C19
 open Cooler Cooler.Strings
 
@@ -1161,5 +1183,306 @@ example : parseCoolerUri ['a', ':', ':', 'x', '/', 'y'] = .ok (['a'], ['/', 'x',
 example : parseCoolerUri ['C', ':', '\\', 'a', ':', ':', '/', 'x'] = .ok (['C', ':', '\\', 'a'], ['/', 'x']) := by rfl
 example : parseCoolerUri ['a', ':', ':', 'b', ':', ':', 'c'] = .error .value :=
   uri_two_sep ['a'] ['b'] ['c'] (by decide) (by decide)
+
+/-! ### any two separators are refused (no side condition) -/
+
+theorem len_cons_ne {c : Char} (s : Str) (hc : c ≠ ':') :
+    (splitDC (c :: s)).length = (splitDC s).length := by
+  cases s with
+  | nil => rfl
+  | cons d cs =>
+    have hcd : ¬ (c = ':' ∧ d = ':') := fun h => hc h.1
+    obtain ⟨p, ps, h⟩ := List.exists_cons_of_ne_nil (splitDC_ne_nil (d :: cs))
+    have e : splitDC (c :: d :: cs) = (c :: p) :: ps := by simp [splitDC, hcd, h]
+    rw [e, h]; rfl
+
+theorem len_dc (s : Str) : (splitDC (':' :: ':' :: s)).length = 1 + (splitDC s).length := by
+  simp [splitDC]; omega
+
+theorem len_colon_ne {d : Char} (s : Str) (hd : d ≠ ':') :
+    (splitDC (':' :: d :: s)).length = (splitDC (d :: s)).length := by
+  obtain ⟨p, ps, h⟩ := List.exists_cons_of_ne_nil (splitDC_ne_nil (d :: s))
+  have e : splitDC (':' :: d :: s) = (':' :: p) :: ps := by simp [splitDC, hd, h]
+  rw [e, h]; rfl
+
+/-- a leading colon never lowers the number of parts -/
+theorem len_colon_ge : ∀ (n : Nat) (y : Str), y.length ≤ n →
+    (splitDC y).length ≤ (splitDC (':' :: y)).length := by
+  intro n
+  induction n with
+  | zero =>
+    intro y hy
+    have : y = [] := List.eq_nil_of_length_eq_zero (by omega)
+    subst this; simp [splitDC]
+  | succ n ih =>
+    intro y hy
+    match y, hy with
+    | [], _ => simp [splitDC]
+    | d :: z, hy =>
+      by_cases hd : d = ':'
+      · subst hd
+        rw [len_dc]
+        match z, hy with
+        | [], _ => simp [splitDC]
+        | e :: w, hy =>
+          by_cases he : e = ':'
+          · subst he
+            rw [len_dc]
+            have := ih w (by simp at hy; omega)
+            omega
+          · rw [len_colon_ne w he]; omega
+      · rw [len_colon_ne z hd]; omega
+
+theorem len_sep_ge : ∀ (n : Nat) (a : Str), a.length ≤ n → ∀ r : Str,
+    1 + (splitDC r).length ≤ (splitDC (a ++ ':' :: ':' :: r)).length := by
+  intro n
+  induction n with
+  | zero =>
+    intro a ha r
+    have : a = [] := List.eq_nil_of_length_eq_zero (by omega)
+    subst this
+    simp only [List.nil_append, len_dc]; omega
+  | succ n ih =>
+    intro a ha r
+    match a, ha with
+    | [], _ => simp only [List.nil_append, len_dc]; omega
+    | c :: a', ha =>
+      by_cases hc : c = ':'
+      · subst hc
+        match a', ha with
+        | [], _ =>
+          simp only [List.cons_append, List.nil_append, len_dc]
+          have := len_colon_ge r.length r (by omega)
+          omega
+        | d :: a'', ha =>
+          by_cases hd : d = ':'
+          · subst hd
+            simp only [List.cons_append, len_dc]
+            have := ih a'' (by simp at ha; omega) r
+            omega
+          · simp only [List.cons_append]
+            rw [len_colon_ne _ hd, len_cons_ne _ hd]
+            exact ih a'' (by simp at ha; omega) r
+      · simp only [List.cons_append]
+        rw [len_cons_ne _ hc]
+        exact ih a' (by simp at ha; omega) r
+
+/-- **uri_two_sep_any**: a text containing two (non-overlapping) `::` is refused, whatever surrounds them -/
+theorem uri_two_sep_any (a b c : Str) :
+    parseCoolerUri (a ++ ':' :: ':' :: (b ++ ':' :: ':' :: c)) = .error .value := by
+  have h1 := len_sep_ge a.length a (by omega) (b ++ ':' :: ':' :: c)
+  have h2 := len_sep_ge b.length b (by omega) c
+  have h3 : 0 < (splitDC c).length := List.length_pos_iff.mpr (splitDC_ne_nil c)
+  unfold parseCoolerUri
+  generalize splitDC (a ++ ':' :: ':' :: (b ++ ':' :: ':' :: c)) = parts at h1
+  match parts, h1 with
+  | [], h1 => simp at h1
+  | [_], h1 => simp at h1; omega
+  | [_, _], h1 => simp at h1; omega
+  | _ :: _ :: _ :: _, _ => rfl
+
+/-! ## the L0 recogniser of malformed classes is sound for the model -/
+
+theorem dropWhile_none {p : Char → Bool} {l : Str} (h : ∀ c ∈ l, p c = false) : l.dropWhile p = l := by
+  cases l with
+  | nil => rfl
+  | cons a l => simp [h a (by simp)]
+
+theorem strip_no_space {l : Str} (h : ∀ c ∈ l, isSpace c = false) : strip l = l := by
+  unfold strip rstrip lstrip
+  rw [dropWhile_none h, dropWhile_none (fun c hc => h c (List.mem_reverse.mp hc))]
+  simp
+
+theorem upper_not_space {c : Char} (h : isLetter c = true) : isSpace (upper c) = false := by
+  unfold upper
+  split
+  · rename_i hl
+    have key : ∀ i : Fin 26, isSpace (Char.ofNat (65 + i.val)) = false := by decide
+    have : c.toNat - 32 = 65 + (c.toNat - 97) := by omega
+    rw [this]
+    exact key ⟨c.toNat - 97, by omega⟩
+  · simp [isLetter, isSpace] at *; omega
+
+theorem strip_upper_letters {U : Str} (h : ∀ c ∈ U, isLetter c = true) : strip (U.map upper) = U.map upper := by
+  apply strip_no_space
+  intro c hc
+  obtain ⟨d, hd, rfl⟩ := List.mem_map.mp hc
+  exact upper_not_space (h d hd)
+
+/-- `badUnit`: a COORD token that `parse_humanized` rejects -/
+theorem badUnit_shape {A : Str} (h : badUnit A = true) :
+    ∃ X Y Z, A = coordText X Y Z ∧ IsCoord X Y Z ∧ parseHumanized A = .error .value := by
+  cases A with
+  | nil => simp [badUnit] at h
+  | cons c0 t =>
+    unfold badUnit at h
+    simp only [Bool.and_eq_true, decide_eq_true_eq] at h
+    obtain ⟨hd, h⟩ := h
+    generalize hX : (c0 :: t).takeWhile isDigitComma = X at h
+    generalize hR : (c0 :: t).dropWhile isDigitComma = R at h
+    have hA : c0 :: t = X ++ R := by
+      rw [← hX, ← hR]; exact (List.takeWhile_append_dropWhile).symm
+    have hXm : ∀ c ∈ X, isDigitComma c = true := by
+      intro c hc; rw [← hX] at hc; exact mem_takeWhile hc
+    have hc0X : c0 ∈ X := by rw [← hX]; simp [isDigitComma, hd]
+    have hXne : X ≠ [] := List.ne_nil_of_mem hc0X
+    have hIn : ∀ c ∈ X.filter (· != ','), isNumeric c = true := by
+      intro c hc
+      have := hXm c (List.mem_filter.mp hc).1
+      simp [isDigitComma] at this
+      simp [isNumeric]
+      rcases this with h | h
+      · exact Or.inl (Or.inl h)
+      · exact Or.inl (Or.inr h)
+    have hIne : X.filter (· != ',') ≠ [] :=
+      List.ne_nil_of_mem (List.mem_filter.mpr ⟨hc0X, digit_ne_comma hd⟩)
+    rw [hA]
+    -- the two shapes of the remainder
+    have main : ∀ (Y : Option Str) (V' : Str) (Z : Str), R = (match Y with | some F => '.' :: F | none => []) ++ Z →
+        (∀ F, Y = some F → ∀ c ∈ F, isDigit c = true) → Z ≠ [] → (∀ c ∈ Z, isLetter c = true) →
+        unitExp (Z.map upper) = none →
+        ∃ X' Y' Z', X ++ R = coordText X' Y' Z' ∧ IsCoord X' Y' Z' ∧ parseHumanized (X ++ R) = .error .value := by
+      intro Y _ Z hRe hY hZne hZ hu
+      refine ⟨X, Y, Z, by rw [hRe]; cases Y <;> simp [coordText], ⟨hXne, hXm, hY, hZ⟩, ?_⟩
+      have hu' : unitExp (strip (Z.map upper)) = none := by rw [strip_upper_letters hZ]; exact hu
+      have hYn : ∀ c ∈ (match Y with | some F => '.' :: F | none => ([] : Str)), isNumeric c = true ∧ (c != ',') = true := by
+        intro c hc
+        cases Y with
+        | none => simp at hc
+        | some F =>
+          rcases List.mem_cons.mp hc with hc | hc
+          · subst hc; exact ⟨by decide, by decide⟩
+          · exact ⟨digit_numeric (hY F rfl c hc), digit_ne_comma (hY F rfl c hc)⟩
+      apply humanized_unknown_unit _ (X.filter (· != ',') ++ (match Y with | some F => '.' :: F | none => [])) Z
+      · rw [hRe]
+        simp only [List.filter_append]
+        rw [filter_id (fun c hc => (hYn c hc).2), filter_id (fun c hc => letter_ne_comma (hZ c hc))]
+        simp
+      · simp [hIne]
+      · intro c hc
+        rcases List.mem_append.mp hc with hc | hc
+        · exact hIn c hc
+        · exact (hYn c hc).1
+      · exact fun c hc => letter_not_numeric (hZ c hc)
+      · exact hZne
+      · exact hu'
+    cases R with
+    | nil => simp [skipFraction] at h
+    | cons c r =>
+      by_cases hdot : c = '.'
+      · subst hdot
+        simp only [skipFraction] at h
+        obtain ⟨⟨h1, h2⟩, h3⟩ := h
+        have hr : r = r.takeWhile isDigit ++ r.dropWhile isDigit := (List.takeWhile_append_dropWhile).symm
+        exact main (some (r.takeWhile isDigit)) [] (r.dropWhile isDigit) (by simp [← hr])
+          (by intro F hF; injection hF with hF; subst hF; exact fun c hc => mem_takeWhile hc)
+          (by simpa using h1) (by simpa using h2) (by simpa using h3)
+      · have hm : skipFraction (c :: r) = c :: r := by
+          unfold skipFraction
+          split
+          · rename_i heq; injection heq with h1 _; exact absurd h1 hdot
+          · rfl
+        rw [hm] at h
+        obtain ⟨⟨h1, h2⟩, h3⟩ := h
+        exact main none [] (c :: r) (by simp) (by simp) (by simp) (by simpa using h2) (by simpa using h3)
+
+/-- **refusedClass_sound** (L1 refuses wherever L0 demands a refusal): every string the L0 recogniser
+`refusedClass` puts in one of the malformed classes the property lists is refused by
+`parse_region_string`. -/
+theorem refusedClass_sound (s : Str) (r : Refusal) (h : refusedClass s = some r) :
+    parseRegionString s = .error .value := by
+  unfold refusedClass at h
+  obtain ⟨hnc, hsplit⟩ := sep_split ':' s
+  generalize hname : s.takeWhile (· != ':') = name at h hnc hsplit
+  by_cases hemp : strip name = []
+  · exact refuses_empty_name s (by rw [hname]; exact hemp)
+  simp only [hemp, if_false] at h
+  rcases hsplit with ⟨hd, _⟩ | ⟨body, hd, hs⟩
+  · simp [hd] at h
+  simp only [hd] at h
+  by_cases hany : body.any (· == ':') = true
+  · simp [hany] at h
+  simp only [hany, Bool.false_eq_true, if_false] at h
+  have hbc : ':' ∉ body := by
+    cases hb : body.any (· == ':') with
+    | true => exact absurd hb hany
+    | false => exact not_mem_of_any_false hb
+  rw [hs]
+  apply parse_error_of_expect hnc hbc
+  by_cases hhy : body.any (· == '-') = false
+  · exact refuses_missing_hyphen body (not_mem_of_any_false hhy)
+  have hhy' : body.any (· == '-') = true := by simpa using hhy
+  simp only [hhy', Bool.not_true, Bool.false_eq_true, if_false] at h
+  have hbody : body = body.takeWhile isSpace ++ body.dropWhile isSpace :=
+    (List.takeWhile_append_dropWhile).symm
+  have hws : ∀ x ∈ body.takeWhile isSpace, isSpace x = true := fun x hx => mem_takeWhile hx
+  cases hdw : body.dropWhile isSpace with
+  | nil => simp [hdw] at h
+  | cons c rest =>
+    simp only [hdw] at h
+    have hsp : isSpace c = false := dropWhile_head hdw
+    by_cases hc : c = '-'
+    · rw [hbody, hdw]; exact refuses_bad_start _ rest c hws hsp (by subst hc; decide)
+    simp only [hc, if_false] at h
+    cases hdc : isDigitComma c with
+    | false => rw [hbody, hdw]; exact refuses_bad_start _ rest c hws hsp hdc
+    | true =>
+      simp only [hdc, Bool.not_true, Bool.false_eq_true, if_false] at h
+      obtain ⟨hnh, hsplit2⟩ := sep_split '-' body
+      generalize hA : body.takeWhile (· != '-') = A at h hnh hsplit2
+      rcases hsplit2 with ⟨_, hb2⟩ | ⟨b, hd2, hs2⟩
+      · obtain ⟨x, hx, hxe⟩ := List.any_eq_true.mp hhy'
+        simp at hxe; subst hxe
+        rw [← hb2] at hnh; exact absurd hx hnh
+      simp only [hd2, List.drop_succ_cons, List.drop_zero] at h
+      rw [hs2]
+      by_cases hbu : badUnit A = true
+      · obtain ⟨X, Y, Z, rfl, hco, hp⟩ := badUnit_shape hbu
+        exact refuses_bad_first_numeral b hco hp
+      simp only [hbu, Bool.false_eq_true, if_false] at h
+      cases hx : numeralValue A with
+      | none => simp [hx] at h
+      | some x =>
+        simp only [hx] at h
+        cases b with
+        | nil => simp at h
+        | cons d b' =>
+          simp only at h
+          by_cases hbb : badUnit (d :: b') = true
+          · obtain ⟨X, Y, Z, hB, hco, hp⟩ := badUnit_shape hbb
+            rw [hB] at hp
+            have := refuses_bad_second_numeral A [] x hx hco stops_nil hp
+            rw [hB]; simpa using this
+          simp only [hbb, Bool.false_eq_true, if_false] at h
+          by_cases hd' : (!(isSpace d) && !(isDigitComma d)) = true
+          · simp only [Bool.and_eq_true, Bool.not_eq_true'] at hd'
+            have := refuses_bad_end A [] b' x d hx (by simp) hd'.1 hd'.2
+            simpa using this
+          simp only [hd', Bool.false_eq_true, if_false] at h
+          cases hy : numeralValue (d :: b') with
+          | none => simp [hy] at h
+          | some y =>
+            simp only [hy] at h
+            by_cases hyx : y < x
+            · exact refuses_reversed A (d :: b') x y hx hy hyx
+            · simp [hyx] at h
+
+/-- non-vacuity: one string per class is recognised -/
+example : refusedClass [' ', ':', '1', '-', '2'] = some .emptyName ∧
+    refusedClass ['c', ':', '5'] = some .missingHyphen ∧
+    refusedClass ['c', ':', '-', '5', '-', '1'] = some .negative ∧
+    refusedClass ['c', ':', 'x', '-', '1'] = some .nonNumeric ∧
+    refusedClass ['c', ':', '1', '0', '-', '5'] = some .reversed ∧
+    refusedClass ['c', ':', '1', 'x', '-', '5'] = some .unknownUnit := by decide
+
+/-! ## observation outside the property
+
+Text after the end coordinate is never looked at by the code (`_expect` stops after the third
+token, and only `parts[1]` of the `:`-split is used).  The model mirrors this; the property is
+silent about it, so it is neither promised nor a violation. -/
+example : parseRegionString ['c', ':', '1', '-', '2', '-', '3'] = .ok (['c'], some 1, some 2) := by rfl
+example : parseRegionString ['c', ':', '1', '-', '2', ':', 'z'] = .ok (['c'], some 1, some 2) := by rfl
+example : strictRegion ['c', ':', '1', '-', '2', '-', '3'] = none ∧
+    refusedClass ['c', ':', '1', '-', '2', '-', '3'] = none := by decide
 
 end Cooler.C19
